@@ -24,7 +24,7 @@ def nsv (pname : String) : Option Val → Out (Option Val)
     | .ok objs' => .ok (some (.map objs'))
     | .err e => .err e
     | .panic s => .panic s
-  | some _ => .panic "loader.setNameFromKey"
+  | some _ => .err "setNameFromKey"
 
 /-- `Transform` of a section -/
 def decV (f : Val → Out FileObj) : Option Val → Out (List (String × FileObj))
